@@ -11,6 +11,7 @@
 #include <string.h>
 #include <sys/mman.h>
 #include <sys/personality.h>
+#include <sys/prctl.h>
 #include <sys/syscall.h>
 #include <sys/time.h>
 #include <sys/types.h>
@@ -421,6 +422,8 @@ typedef struct {
 static job jobs[MAXJOBS];
 
 static void child_setup (int j) {
+  prctl (PR_SET_PDEATHSIG, SIGKILL);    /* an explorer that is killed (hard timeout) must not leave spinning children */
+  if (getppid () == 1) syscall (SYS_exit_group, 0);
   in_child = 1;
   cur = &slots[j];
   cur_fd = slot_fd[j];
